@@ -380,13 +380,17 @@ static void misc(Report & rep)
     }
   });
 
-  rep.run_stream("reparameterize", NQ(rep, 80, 2500), [&](Rng & r, long) {
+  for (const bool straight : {false, true})
+  rep.run_stream(straight ? "reparameterize.nearly_straight" : "reparameterize", straight ? NQ(rep, 40, 1000) : NQ(rep, 80, 2500), [&, straight](Rng & r, long) {
     // source curve: a cubic fit through random SE2 poses (twice continuously differentiable)
     const int np = 3 + r.below(8);
     std::vector<double> ts = {0};
     for (int i = 1; i < np; ++i) ts.push_back(ts.back() + r.loguni(0.1, 5));
     std::vector<SE2d> gs = {SE2d::Identity()};
-    for (int i = 1; i < np; ++i) gs.push_back(gs.back() + Eigen::Vector3d(r.sym(), 0.3 * r.sym(), 0.8 * r.sym()));
+    // regime: generic planar motion, or nearly straight motion (lateral / angular velocity components between 1e-7
+    // and 1e-2 of the forward one: their velocity and acceleration bounds are very weak constraints of the LPs)
+    const double lat = straight ? r.loguni(1e-7, 1e-2) : 1.0, ang = straight ? r.loguni(1e-7, 1e-2) : 1.0;
+    for (int i = 1; i < np; ++i) gs.push_back(gs.back() + Eigen::Vector3d(straight ? 0.2 + r.uni() : r.sym(), 0.3 * lat * r.sym(), 0.8 * ang * r.sym()));
     const auto c = smooth::fit_spline_cubic(ts, gs);
     const double vs = r.loguni(0.1, 10), as = r.loguni(0.1, 10);
     Eigen::Vector3d vmax(vs * r.loguni(1, 10), vs * r.loguni(1, 10), vs * r.loguni(1, 10)), amax(as * r.loguni(1, 10), as * r.loguni(1, 10), as * r.loguni(1, 10));
@@ -407,7 +411,7 @@ static void misc(Report & rep)
       return JObj().raw("inputs", inputs()).num("T", s.t_max()).done();
     };
     rep.note_input(Report::hash_vec(vmax, Report::hash_vec(amax, hash_bytes(&start_vel, sizeof start_vel))), true);
-    const std::string st = std::string(start_vel == 0 ? "start_vel=0" : "start_vel>0") + ",end_vel:" + (std::isinf(end_vel) ? std::string("inf") : decade(end_vel));
+    const std::string st = std::string(start_vel == 0 ? "start_vel=0" : "start_vel>0") + ",end_vel:" + (std::isinf(end_vel) ? std::string("inf") : decade(end_vel)) + (straight ? ",nearly_straight" : "");
     const double T = s.t_max();
     rep.require("reparameterize.finite_duration", st, std::isfinite(T) && T > 0, det);
     if (!(std::isfinite(T) && T > 0)) return;
